@@ -41,8 +41,21 @@ pub enum Op {
     /// acknowledge through a StreamingPull control message (stream opened on demand, kept open)
     StreamAck(&'static str, Which),
     StreamMod(&'static str, Which, i32),
+    /// ModifyAckDeadline with an arbitrary id list (unary, or as a control message on a stream opened for it)
+    ModIds(&'static str, Vec<IdKind>, i32, bool),
     /// open a StreamingPull on the subscription (kept open; its deliveries are fed to the model after every step)
     StreamOpen(&'static str, i64),
+}
+
+#[derive(Clone, Copy, Debug, PartialEq)]
+pub enum IdKind {
+    /// oldest / newest outstanding delivery
+    A,
+    B,
+    Stale,
+    Unknown,
+    BadX,
+    BadEmpty,
 }
 
 fn pick_id(m: &Model, sub: &str, w: &Which) -> Option<String> {
@@ -318,6 +331,43 @@ pub async fn apply(cx: &Ctx, st: &mut SeqState, op: &Op, unfrozen: bool) -> Resu
         }
         Op::StreamOpen(s, max) => {
             open_stream(cx, st, s, max, unfrozen).await?;
+        }
+        Op::ModIds(s, kinds, secs, via_stream) => {
+            let ids: Vec<String> = kinds
+                .iter()
+                .map(|k| match k {
+                    IdKind::A => pick_id(&st.model, s, &Which::Oldest).unwrap_or_else(|| "7777".into()),
+                    IdKind::B => pick_id(&st.model, s, &Which::Newest).unwrap_or_else(|| "7778".into()),
+                    IdKind::Stale => st.model.subs[s].stale_ack_ids.first().cloned().unwrap_or_else(|| "7779".into()),
+                    IdKind::Unknown => "9999".into(),
+                    IdKind::BadX => "x".into(),
+                    IdKind::BadEmpty => "".into(),
+                })
+                .collect();
+            if !via_stream {
+                let i2 = ids.clone();
+                let r = call(cx, unfrozen, "client:modify", async move { a.modify(s, i2, secs).await }).await?;
+                v2v(st.model.modify(s, &ids, secs, &r), st, &ops)?;
+            } else {
+                open_stream(cx, st, s, 1000, unfrozen).await?;
+                absorb_streams(st)?;
+                let tx = st.streams[s].tx.clone();
+                let req = deltio::pubsub_proto::StreamingPullRequest { modify_deadline_seconds: vec![secs; ids.len()], modify_deadline_ack_ids: ids.clone(), ..Default::default() };
+                call(cx, unfrozen, "client:stream-ctl", async move { tx.send(req).await.is_ok() }).await?;
+                // a rejected control message terminates the stream with its status; an accepted one leaves it open
+                let ended = st.streams[s].ended.lock().unwrap().clone();
+                let r: Result<(), Code> = match ended.as_deref() {
+                    None => Ok(()),
+                    Some("InvalidArgument") => Err(Code::InvalidArgument),
+                    Some("NotFound") => Err(Code::NotFound),
+                    Some(other) => return Err(Verdict::Violation { sig: "stream/odd-termination".into(), detail: format!("control message {:?}/{} ended the stream with {}", ids, secs, other) }),
+                };
+                if r.is_err() {
+                    let h = st.streams.remove(s).unwrap();
+                    h.reader.abort();
+                }
+                v2v(st.model.modify(s, &ids, secs, &r), st, &ops)?;
+            }
         }
         Op::AdvBefore => {
             let lo = st.model.earliest_lo().unwrap();
